@@ -76,6 +76,11 @@ class C03(core.Prop):
                     # the same unit at a level that is not the atomistic one (beads: no element, no hydrogen count)
                     out.append({'mode': 'unit', 'nc': nc, 'topo': topo, 'na': na, 'nd': nd, 'll': ll, 'legacy': legacy, 'arom': False,
                                 'omax': 4 if na * nd * nc <= 4 else 2, 'coarse': True})
+        # a single-hydrogen fragment in the middle of a chain: its one descriptor serves one bond only
+        for legacy in (True, False):
+            out.append({'mode': 'unit', 'nc': 3, 'topo': 'chain', 'na': 1, 'nd': 1, 'll': 1, 'legacy': legacy, 'arom': False, 'omax': 2, 'hmid': True})
+            if tier != 'quick':
+                out.append({'mode': 'unit', 'nc': 3, 'topo': 'tri', 'na': 1, 'nd': 1, 'll': 0, 'legacy': legacy, 'arom': False, 'omax': 2, 'hmid': True})
         # descriptors whose labels differ in length (a labelled one against an unlabelled one, ...)
         for (nc, topo, na, nd, ll) in ([(2, 'chain', 1, 1, 1), (2, 'chain', 1, 2, 1)] if tier == 'quick' else
                                        [(2, 'chain', 1, 1, 1), (2, 'chain', 1, 2, 1), (2, 'chain', 2, 1, 1), (2, 'chain', 1, 2, 2), (3, 'chain', 1, 2, 1)]):
@@ -139,6 +144,8 @@ class C03(core.Prop):
                 for a in range(shape['na']):
                     ds = inp['desc'][str(nid)]
                     attrs = dict(element='C', hcount=3, fragid=[c])
+                    if shape.get('hmid') and c == 1:
+                        attrs = dict(element='H', hcount=0, fragid=[c])
                     if shape.get('coarse'):
                         attrs = dict(atomname='B%d' % a, fragname='F', fragid=[c])
                     if shape['arom']:
